@@ -56,10 +56,34 @@ type txObs struct {
 
 type recPlatform struct {
 	base.Platform
+	env    *env
 	mu     sync.Mutex
 	active bool
 	begin  state.WorldSnapshot
 	txs    []txObs
+}
+
+// the contract manager of the node hands out the handler doubles for "s" and "z" (script_test.go)
+func (p *recPlatform) NewContractManager(dbase db.Database, dir string, logger log.Logger) (contract.ContractManager, error) {
+	cm, err := p.Platform.NewContractManager(dbase, dir, logger)
+	if err != nil {
+		return nil, err
+	}
+	return &verifCM{ContractManager: cm, env: p.env}, nil
+}
+
+// tmoChain shortens the transaction timeout for blocks whose programs call the never-answering
+// contract, so that such a case costs ~150 ms instead of the fixture's 5 s.
+type tmoChain struct {
+	*test.Chain
+	env *env
+}
+
+func (c *tmoChain) TransactionTimeout() time.Duration {
+	if ms := atomic.LoadInt64(&c.env.tmoMillis); ms > 0 {
+		return time.Duration(ms) * time.Millisecond
+	}
+	return c.Chain.TransactionTimeout()
 }
 
 func (p *recPlatform) OnExecutionBegin(wc state.WorldContext, logger log.Logger) error {
@@ -92,6 +116,7 @@ type setupJSON struct {
 	TS      common.HexInt64   `json:"timestamp"`
 	Bal     map[string]string `json:"bal,omitempty"`    // address -> hex balance
 	Deploy  []string          `json:"deploy,omitempty"` // contract addresses to install the script SCORE on
+	Mark    []string          `json:"mark,omitempty"`   // addresses that become contract accounts without code
 	Store   map[string]map[string]string `json:"store,omitempty"` // address -> key -> hex value ("" deletes)
 }
 
@@ -141,6 +166,12 @@ func (t *setupTx) Execute(ctx contract.Context, wcs state.WorldSnapshot, estimat
 		cc.Dispose()
 		if err != nil {
 			return nil, err
+		}
+	}
+	for _, a := range t.js.Mark {
+		as := ctx.GetAccountState(common.MustNewAddressFromString(a).ID())
+		if !as.IsContract() {
+			as.InitContractAccount(state.SystemAddress)
 		}
 	}
 	for a, v := range t.js.Bal {
@@ -230,8 +261,11 @@ type env struct {
 	baseTS int64
 	seq    int64
 
-	contracts []string
+	contracts []string // contracts with storage (projection)
+	scores    []string // ... that are scripted system SCOREs
+	syncs     []string // ... that are served by the synchronous handler double
 	btpNID    int64
+	tmoMillis int64    // transaction timeout override (0: the fixture's)
 
 	wallets map[string]module.Wallet  // users
 	addr    map[string]module.Address // every abstract account
@@ -275,17 +309,18 @@ func detWallet(seed string) module.Wallet {
 	return w
 }
 
-func newEnv(cfg chainCfg, users, contracts, ghosts []string, salt string) (*env, error) {
+func newEnv(cfg chainCfg, users, scores, syncs, ghosts []string, salt string) (*env, error) {
+	contracts := append(append([]string{}, scores...), syncs...)
 	registerSetupFactory()
 	registerScriptScore()
-	e := &env{cfg: cfg, t: &lenientT{}, contracts: contracts, wallets: map[string]module.Wallet{}, addr: map[string]module.Address{}, name: map[string]string{}}
+	e := &env{cfg: cfg, t: &lenientT{}, contracts: contracts, scores: scores, syncs: syncs, wallets: map[string]module.Wallet{}, addr: map[string]module.Address{}, name: map[string]string{}}
 	e.plt = nil
 	e.node = test.NewNode(e.t,
 		test.UseGenesis(genesisFor(cfg)),
 		test.UseWallet(detWallet("node")),
 		test.UseConfig(&test.FixtureConfig{
 			NewPlatform: func(ctx *test.NodeContext) base.Platform {
-				e.plt = &recPlatform{Platform: basic.Platform}
+				e.plt = &recPlatform{Platform: basic.Platform, env: e}
 				return e.plt
 			},
 			NewSM: func(ctx *test.NodeContext) module.ServiceManager {
@@ -320,7 +355,7 @@ func newEnv(cfg chainCfg, users, contracts, ghosts []string, salt string) (*env,
 	e.tsc = service.NewTimestampChecker()
 	blk := e.node.LastBlock
 	tr, err := service.NewInitTransition(e.nctx.C.Database(), blk.Result(), blk.NextValidators(),
-		e.nctx.CM, e.nctx.EM, e.nctx.C, e.nctx.C.Logger(), e.plt, e.tsc)
+		e.nctx.CM, e.nctx.EM, &tmoChain{Chain: e.nctx.C, env: e}, e.nctx.C.Logger(), e.plt, e.tsc)
 	if err != nil {
 		return nil, err
 	}
@@ -416,7 +451,7 @@ func (e *env) worldOf(tr module.Transition) (state.WorldSnapshot, error) {
 
 func (e *env) nextSeq() int64 { e.seq++; return e.seq }
 
-func (e *env) newSetup(height int64, bal map[string]int64, deploy []string, store map[string]map[string]int) module.Transaction {
+func (e *env) newSetup(height int64, bal map[string]int64, deploy, mark []string, store map[string]map[string]int) module.Transaction {
 	t := &setupTx{}
 	t.js.Type = setupType
 	t.js.Seq = e.nextSeq()
@@ -429,6 +464,9 @@ func (e *env) newSetup(height int64, bal map[string]int64, deploy []string, stor
 	}
 	for _, c := range deploy {
 		t.js.Deploy = append(t.js.Deploy, e.addr[c].String())
+	}
+	for _, c := range mark {
+		t.js.Mark = append(t.js.Mark, e.addr[c].String())
 	}
 	if len(store) > 0 {
 		t.js.Store = map[string]map[string]string{}
